@@ -1067,6 +1067,9 @@ def run(ck):
                       'expat; handlers outside the property\'s list (ReloadConfig, UpdateActivationEnvironment, '
                       'BecomeMonitor are analysed under C18 / listed only)')
     for v, prog in ck.programs(thorough_variants=('B',)):
+        from rules import listops
+        rq = ck.rule('C14.11', 'the public list operations do what their names say (dbus/dbus-list.c; abstract interpretation of their CFG over every circular list of 0..3 links with equal and distinct data, every link / anchor / data argument, with and without memory for a new link): resulting order, return value, freed and detached links agree with the specification of append, prepend, insert_after, remove (first match), remove_last / find_last (last match), remove_link, clear, get/pop first/last (link), get_length, length_is_one', 'ABS', breaks='an append that fails for lack of memory has nevertheless changed the list, or a removal frees a link that is still linked', floor=15)
+        listops.check(prog, rq)
         c14_1(ck, prog)
         c14_2(ck, prog)
         signature_pairing(ck, prog)
